@@ -37,6 +37,12 @@ CHECKS = {
             {"name": "c08-applyto", "files": ["h_c08.go"], "harnesses": ["VerifH_C08_ApplyTo"],
              "flags": {"quick": [P(maxcalls=3)], "thorough": [P(maxcalls=4)]},
              "reach": {"VerifH_C08_ApplyTo": ["applied"]}},
+            {"name": "c08-sys", "files": ["h_sys_c08.go"], "harnesses": ["VerifH_SYS_C08"], "concurrent": True,
+             "flags": {"quick": [P(nreq=2, faults=1)], "thorough": [P(nreq=3, faults=1, withpub=1)]},
+             "reach": {"VerifH_SYS_C08": ["quiescent"]}},
+            {"name": "c08-sys-f2", "files": ["h_sys_c08.go"], "harnesses": ["VerifH_SYS_C08"], "concurrent": True, "thorough_only": True,
+             "flags": {"thorough": [P(nreq=2, faults=2)]},
+             "reach": {"VerifH_SYS_C08": ["quiescent"]}},
         ],
     },
     "C14": {
